@@ -504,7 +504,7 @@ pub fn probe_histories(thorough: bool) -> Vec<Vec<crate::mc::Step<PAct>>> {
 
 impl PairModel {
     /// Child: run prefix `pi` (or none) then every probe history; print the trace vector.
-    pub fn isolation_child(&self, envp: *mut ExecEnv, m: u8, pi: i64) -> Vec<u64> {
+    pub fn isolation_child(&self, envp: *mut ExecEnv, m: u8, pi: i64, only: Option<usize>, emit: &mut dyn FnMut(u64)) {
         let prefixes = prefix_histories(self.thorough);
         let probes = probe_histories(self.thorough);
         let mut dummy = Vec::new();
@@ -518,7 +518,14 @@ impl PairModel {
         if pi >= 0 {
             let _ = run(&prefixes[pi as usize], &mut dummy);
         }
-        probes.iter().map(|q| run(q, &mut dummy)[1]).collect()
+        match only {
+            Some(q) => emit(run(&probes[q], &mut dummy)[1]),
+            None => {
+                for q in &probes {
+                    emit(run(q, &mut dummy)[1]);
+                }
+            }
+        }
     }
 }
 
